@@ -89,7 +89,7 @@ def _prim(case):
         else:
             obj = pool[r[1]]
         _CACHE['key'] = key
-        _CACHE['val'] = (obj, None if obj is None else D.dump(obj))
+        _CACHE['val'] = (obj, None if obj is None else r[2])
     return _CACHE['val']
 
 
